@@ -42,7 +42,7 @@ def lines_in_strings(src):
     return inside
 
 
-COMMENT_TEXTS = ["## note", "#", "### heading ##", "## see ## total", '# "quoted', "# {brace", "# def x := 1", "# ends with backslash \\", "#! shebang", "# tab\tinside", "# ünïcode"]
+COMMENT_TEXTS = ["##", "##   ", "###", "# #", "## note", "#", "### heading ##", "## see ## total", '# "quoted', "# {brace", "# def x := 1", "# ends with backslash \\", "#! shebang", "# tab\tinside", "# ünïcode"]
 
 
 def indent_of(l):
@@ -103,7 +103,7 @@ def variants(src, pairs=False):
     # comment before it and as trailing comment after it
     extra_singles = []
     if code:
-        for i in sorted({code[0], code[len(code) // 2], code[-1]}):
+        for i in sorted({code[0], code[len(code) // 2], code[-1]} if pairs else {code[0], code[-1]}):   # (quick tier: first and last code line)
             for k, text in enumerate(COMMENT_TEXTS):
                 if i not in inside:
                     extra_singles.append(("comment-text-%d-before@line%d" % (k, i), ("ins", i, " " * indent_of(lines[i]) + text)))
